@@ -76,6 +76,14 @@ def families(tier):
     add("F19-ordered-with-logic", [[Rule("a *", ordered=True, logic=lg, nkeys=3)] for lg in ("undo_redo", "permanent", "ignore_changes")]
         + [[Rule("a *", [Rule("c *", ordered=True, logic="undo_redo", nkeys=3)])],
            [Rule("a *", [Rule("c")], ordered=True, logic="undo_redo"), Rule("b")]])
+    # F20: two flags on one rule (precedence %ordered > %rewrite > %logic; %global with a logic or an order)
+    add("F20-two-flags-on-one-rule", [
+        [Rule("a *", [Rule("c *", rewrite=True, logic="undo_redo")])],
+        [Rule("a *", [Rule("c *", ordered=True, rewrite=True, nkeys=3)])],
+        [Rule("g *", glob=True, ordered=True, nkeys=3), Rule("a *", [Rule("c")])],
+        [Rule("g *", glob=True, logic="undo_redo"), Rule("a *", [Rule("c")])],
+        [Rule("a *", [Rule("g *", glob=True, logic="permanent"), Rule("c *", [Rule("e")])])],
+    ])
     if tier == "thorough":
         # F6: depth 3
         add("F6-depth3", [[Rule("a *", [Rule("c *", [Rule(shape(s, "e"), **f)])])]
